@@ -202,8 +202,9 @@ func findSplitLoops(fn *ssa.Function) []splitLoop {
 				if !ok {
 					continue
 				}
-				z, isZ := core.ConstInt(c.Y)
-				if c.X == ssa.Value(phi) && isZ && z == 0 && (c.Op == token.GTR || c.Op == token.NEQ) {
+				cop, cx, cy := cmpConstRight(c)
+				z, isZ := core.ConstInt(cy)
+				if cx == ssa.Value(phi) && isZ && z == 0 && (cop == token.GTR || cop == token.NEQ) {
 					out = append(out, splitLoop{fn: fn, header: h, rem: phi, chunk: bo.Y})
 				}
 			}
@@ -346,9 +347,9 @@ func runC11(c *core.Ctx) core.Meta {
 				for _, x := range core.CallOf(n.Instr).Args {
 					a = append(a, prov.Of(x))
 				}
-				ok := len(a) == 4 && regexp.MustCompile(`\.buffers\[[^\]]*\]\.vAddr$`).MatchString(a[0]) &&
-					a[1] == "("+a[0]+"+"+strings.TrimSuffix(a[0], ".vAddr")+".size)" &&
-					strings.HasPrefix(a[3], "("+a[2]+"+") && !strings.Contains(a[2], ".buffers[")
+				ok := len(a) == 4 && core.ProvMatch(regexp.MustCompile(`\.buffers\[[^\]]*\]\.vAddr$`), a[0]) &&
+					core.ProvEq(a[1], "("+a[0]+"+"+strings.TrimSuffix(a[0], ".vAddr")+".size)") &&
+					(strings.HasPrefix(a[3], "("+a[2]+"+") || strings.HasSuffix(a[3], "+"+a[2]+")")) && !strings.Contains(a[2], ".buffers[")
 				st1.Ob(ok)
 				st1.Sample("needFlushing: memRangeOverlap(%s)", strings.Join(a, ", "))
 				if !ok {
@@ -436,7 +437,7 @@ func runC11(c *core.Ctx) core.Meta {
 				continue
 			}
 			emptyCut := CmpCut(func(_ *core.Node, op token.Token, x, y ssa.Value) int {
-				if !regexp.MustCompile(`^len\(.*\.Reqs\)$`).MatchString(prov.Of(x)) {
+				if !core.ProvMatch(regexp.MustCompile(`^len\(.*\.Reqs\)$`), prov.Of(x)) {
 					return 0
 				}
 				if z, ok := core.ConstInt(y); !ok || z != 0 {
@@ -878,7 +879,7 @@ func runC11(c *core.Ctx) core.Meta {
 				if core.IsBuiltin(in, "copy") {
 					a := core.CallOf(in).Args
 					d, s := prov.Of(a[0]), prov.Of(a[1])
-					if regexp.MustCompile(`\.DstBuffer\[\(.*\.Address-.*\.SrcAddress\):\]$`).MatchString(d) && strings.HasSuffix(s, ".Data") {
+					if core.ProvMatch(regexp.MustCompile(`\.DstBuffer\[\(.*\.Address-.*\.SrcAddress\):\]$`), d) && strings.HasSuffix(s, ".Data") {
 						ok = true
 					}
 					st4.Sample("DMA read placement: copy(%s, %s)", short(d), short(s))
